@@ -45,14 +45,15 @@ def gen_pair(rng):
     plan_ = [(n, rng.choice(names)) for n in names]
     funcs = {}
     kw = dict(profile="py", allow_end=False, advance_time=False, phase_plan=plan_, funcs=funcs,
-              readonly_state=["<state>in", "<state>scale_<func>f"], max_ops=rng.choice([4, 6, 8]))
+              readonly_state=["<state>in", "<state>scale_<func>f"], max_ops=rng.choice([4, 6, 8]),
+              local_time_bias=0.6)
     # sometimes one method's ordinary temporaries are named like the other's loop counters
     cross = rng.random() < 0.35
     kwa = dict(kw, counters=["c1", "c2", "c3"], extra_locals=["i", "j", "ii"]) if cross else kw
-    if rng.random() < 0.25:
+    if rng.random() < 0.4:
         # the method written first registers user functions under plain names ('limit', 'u'): the other method's
         # temporaries may carry the same names (functions and variables live in separate namespaces)
-        kwa = dict(kwa, shadow_funcs=True, call_bias=0.15)
+        kwa = dict(kwa, shadow_funcs=True, call_bias=0.25)
         if rng.random() < 0.5:
             a = prog.Gen(rng, persist_tag="_a", components=["ya", "aux_a"], **kwa).script()
             b = prog.Gen(rng, persist_tag="_b", components=["yb", "aux_b"], **kw).script()
@@ -320,9 +321,50 @@ def run_dag(dag, script, funcs, nsteps):
     return backends.run_interpreter(dag, dict(script, run={"max_steps": nsteps}), funcs)
 
 
+def function_symbols(dag):
+    """Names in call position anywhere in the description (call statements and calls nested in expressions)."""
+    from vf.sexpr import from_pym, variables
+    out = set()
+    for ph in dag.phases.values():
+        for st in ph.statements:
+            fid = getattr(st, "function_id", None)
+            if isinstance(fid, str):
+                out.add(fid)
+            seen = []
+
+            def grab(e, seen=seen):
+                seen.append(e)
+                return e
+            try:
+                st.map_expressions(grab, include_lhs=True)
+            except TypeError:
+                st.map_expressions(grab)
+            for e in seen:
+                try:
+                    variables(from_pym(e), None, out)
+                except (ValueError, TypeError):
+                    pass
+    return out
+
+
 def differential(a, b, d1, d2, fused, rec, wit):
     funcs = prog.python_functions(a)
     funcs.update(prog.python_functions(b))
+    # the functions a description calls are not among its identifiers: fusion renames variables, never functions
+    stray = function_symbols(fused) - function_symbols(d1) - function_symbols(d2)
+    rec.count("fused_descriptions_whose_called_functions_were_compared")
+    if stray:
+        names = set(funcs)
+        like = sorted(s_ for s_ in stray if any(s_.startswith(f + "_") and s_[len(f) + 1:].isdigit() for f in names))
+        if like and len(like) == len(stray):
+            rec.violation("fusion-renames-function-symbol-of-nested-call-named-like-a-clashing-temporary",
+                          f"the fused description calls {like}, which neither method calls: the function symbol of a "
+                          f"call nested in an expression was renamed along with the second method's temporary of "
+                          f"the same name", wit)
+        else:
+            rec.violation("fused-description-calls-function-neither-method-calls",
+                          f"the fused description calls {sorted(stray)}", wit)
+        return True
     n = a["run"]["max_steps"]
     try:
         r1 = run_dag(d1, a, funcs, n)
